@@ -8,6 +8,7 @@ import (
 	"context"
 	"fmt"
 	"math/rand"
+	"net/url"
 	"os"
 	"path/filepath"
 	"strings"
@@ -152,6 +153,112 @@ func c05CLI(cfg Config, rep *Report, rng *rand.Rand) {
 			if got := snapshotTree(dst, true); strings.Join(got, "\n") != strings.Join(want, "\n") {
 				rep.Disagree(Disagreement{Kind: "monitor", Case: caseLine, Impl: clip(diffLines(want, got), 1500), What: "desync tar ; desync untar does not reproduce the tree on disk"})
 			}
+		}
+	}
+}
+
+// c14CLI: the real `desync chunk-server` and `desync pull` in front of local stores of both formats (the format of the
+// served store comes from the configuration file), with library clients of both formats: present chunks arrive
+// unchanged, missing chunks are reported as missing, and the session stays usable afterwards
+func c14CLI(cfg Config, rep *Report, rng *rand.Rand) {
+	bin := desyncBin()
+	if bin == "" {
+		rep.Notes = append(rep.Notes, "desync binary not built: command-line transport runs skipped")
+		return
+	}
+	dir := filepath.Join(cfg.Work, "cli14")
+	defer os.RemoveAll(dir)
+	for it := 0; it < cfg.N(8, 48); it++ {
+		os.RemoveAll(dir)
+		upstreamUnc := it%2 == 1
+		serverU := it%4 >= 2
+		clientUnc := it%8 >= 4
+		storeDir := filepath.Join(dir, "store")
+		os.MkdirAll(storeDir, 0755)
+		up, _ := desync.NewLocalStore(storeDir, desync.StoreOptions{Uncompressed: upstreamUnc})
+		var chunks []*desync.Chunk
+		for k := 0; k < 6; k++ {
+			var data []byte
+			switch k % 3 {
+			case 0:
+				data = randBytes(rng, 1+rng.Intn(5000))
+			case 1:
+				data = make([]byte, 1+rng.Intn(5000))
+			default:
+				data = bytes.Repeat([]byte("transport "), 1+rng.Intn(400))
+			}
+			c := desync.NewChunk(data)
+			chunks = append(chunks, c)
+			if k < 4 {
+				up.StoreChunk(c)
+			}
+		}
+		conf := filepath.Join(dir, "config.json")
+		os.WriteFile(conf, []byte(fmt.Sprintf(`{"store-options": {%q: {"uncompressed": %v}}}`, storeDir, upstreamUnc)), 0644)
+		check := func(kind string, s desync.Store) {
+			for round := 0; round < 2; round++ { // twice: the session must survive the missing ones
+				for k, c := range chunks {
+					caseLine := fmt.Sprintf("cli.transport kind=%s upstream-uncompressed=%v server-u=%v client-uncompressed=%v chunk=%d present=%v round=%d", kind, upstreamUnc, serverU, clientUnc, k, k < 4, round)
+					got, err := s.GetChunk(c.ID())
+					rep.Count(caseLine, true, "cli.transport:"+kind)
+					want, _ := c.Data()
+					switch {
+					case k < 4 && err != nil:
+						rep.Disagree(Disagreement{Kind: "monitor", Case: caseLine, What: "a chunk the served store holds did not arrive: " + err.Error()})
+					case k < 4:
+						if b, derr := got.Data(); derr != nil || !bytes.Equal(b, want) {
+							rep.Disagree(Disagreement{Kind: "monitor", Case: caseLine, What: fmt.Sprintf("a chunk arrived changed (%v)", derr)})
+						}
+					case err == nil:
+						rep.Disagree(Disagreement{Kind: "monitor", Case: caseLine, What: "a chunk the served store does not hold was delivered"})
+					default:
+						if _, ok := err.(desync.ChunkMissing); !ok {
+							rep.Disagree(Disagreement{Kind: "monitor", Case: caseLine, What: "a missing chunk was reported as a failure, not as missing: " + err.Error()})
+						}
+					}
+					if has, herr := s.HasChunk(c.ID()); herr != nil || has != (k < 4) {
+						rep.Disagree(Disagreement{Kind: "monitor", Case: caseLine + " op=HasChunk", What: fmt.Sprintf("HasChunk answered (%v, %v) for a chunk that is present=%v", has, herr, k < 4)})
+					}
+				}
+			}
+		}
+		// HTTP
+		port := freePort()
+		addr := fmt.Sprintf("127.0.0.1:%d", port)
+		args := []string{"--config", conf, "chunk-server", "-s", storeDir, "-l", addr, "--skip-verify-read=false"}
+		if serverU {
+			args = append(args, "-u")
+		}
+		stop, err := startServer(bin, nil, addr, args...)
+		if err != nil {
+			rep.Notes = append(rep.Notes, "could not start chunk-server: "+err.Error())
+		} else {
+			u, _ := url.Parse("http://" + addr + "/")
+			hs, err := desync.NewRemoteHTTPStore(u, desync.StoreOptions{Uncompressed: clientUnc, ErrorRetry: 0})
+			if err == nil {
+				if clientUnc == serverU { // a client talks to a server of its own format
+					check("chunk-server", hs)
+				}
+				hs.Close()
+			}
+			stop()
+		}
+		// casync protocol over a pipe to the real `desync pull`
+		if it%2 == 0 || it%8 == 1 {
+			wrapper := filepath.Join(dir, "fake-ssh")
+			os.WriteFile(wrapper, []byte("#!/bin/sh\nshift\nexec sh -c \"$1\"\n"), 0755)
+			os.Setenv("CASYNC_SSH_PATH", wrapper)
+			os.Setenv("CASYNC_REMOTE_PATH", bin+" --config "+conf)
+			u, _ := url.Parse("ssh://localhost" + storeDir)
+			rs, err := desync.NewRemoteSSHStore(u, desync.StoreOptions{N: 1})
+			if err != nil {
+				rep.Notes = append(rep.Notes, "could not start desync pull: "+err.Error())
+			} else {
+				check("pull", rs)
+				rs.Close()
+			}
+			os.Unsetenv("CASYNC_SSH_PATH")
+			os.Unsetenv("CASYNC_REMOTE_PATH")
 		}
 	}
 }
